@@ -924,6 +924,14 @@ class BptkServer(Flask):
             resp.headers['Access-Control-Allow-Origin'] = '*'
             return resp
 
+        released = [False]
+
+        def release_lock():
+            # exactly one release per request (a second one could clear the lock of the request that came next)
+            if not released[0]:
+                released[0] = True
+                instance.unlock()
+
         def streamer():
             try:
                 yield "["
@@ -947,13 +955,13 @@ class BptkServer(Flask):
             except Exception:
                 pass
             finally:
-                instance.unlock()
+                release_lock()
 
             if self._external_state_adapter != None:
                 self._external_state_adapter.save_instance(self._instance_manager._get_instance_state(instance_uuid))
 
         resp = Response(streamer())
-        resp.call_on_close(instance.unlock) # also when the stream is never started or is abandoned half-way
+        resp.call_on_close(release_lock) # also when the stream is never started or is abandoned half-way
         resp.headers['Content-Type'] = 'application/json'
         resp.headers['Access-Control-Allow-Origin'] = '*'
         return resp
